@@ -62,6 +62,10 @@ CLAIMED = {
          "node keeps every class/label it was selected for, tracker and strategy selection tables equal the property statement, siblings agree. "
          "Selector parsing and SPARQL evaluation are not decided", "4 C10",
          "who-may-use lint on constants, context-sensitive provenance over the value-flow graph, call-site forwarding lint, decision tables by abstract evaluation, twin comparison (R-CONST, R-FLOW, R-PLUMB, R-TABLE, R-TWIN, R-COUNT)"),
+ "C16": ("decision tables of the cap acceptance/counting variants, of the strategy composition and of the direct-child namespace predicate "
+         "(complete over their abstract domains), value-flow proof that namespaces_to_ignore reaches the feature pass only, twins of the cap "
+         "variants. Equality of complete outputs with the restricted document is not decided", "4 C16",
+         "decision tables by abstract evaluation of the AST, value-flow reachability of an option (who receives it), twin comparison (R-TABLE, R-PLUMB, R-TWIN)"),
 }
 NA_REASON = {
  "C08": "relates the outputs of different parsers (rdflib readers, two hand-written scanners, TSV splitter, decompressors) on "
